@@ -40,6 +40,14 @@ def reentry_case(rep, drv, rnd, i):
         ('lk4', [V('Z'), V('X')], ('conj', ('disj', ('call', 'c', [V('X')]), 'tru'), ('disj', eq(V('Z'), ('A', 'X')), eq(V('Z'), V('X'))))),
     ]
     prog += [
+        # an if-then-else behind a disjunction and in front of another goal: its code is needed once per branch
+        ('t8', [V('X'), V('R')], ('conj', ('disj', ('call', 'c', [V('X')]), ('call', 'c', [V('X')])),
+                                  ('conj', ('disj', ('ite', hx, yes), no), ('call', 'two', [])))),
+        ('two', [], 'tru'), ('two', [], 'tru'),
+        ('t9', [V('X'), V('R')], ('conj', ('disj', ('call', 'c', [V('X')]), ('disj', 'tru', ('call', 'h', [V('X')]))),
+                                  ('conj', ('neg', hx), ('conj', ('disj', ('ite', ('call', 'c', [V('R')]), 'tru'), no), ('call', 'two', []))))),
+    ]
+    prog += [
         # `true , (C -> T)` next to `;` is a disjunction of an if-then and E, not an if-then-else
         ('t6', [V('X'), V('R')], ('disj', wrapped, no)),
         ('t7', [V('X'), V('R')], ('disj', ('conj', 'tru', ('neg', hx)), ('conj', ('call', 'c', [V('X')]), no))),
@@ -52,7 +60,7 @@ def reentry_case(rep, drv, rnd, i):
                                   ('conj', ('call', 'c', [V('X')]), ('conj', ('disj', ('ite', hx, yes), no), test(('call', 'k', [V('X'), V('X')])))))),
     ]
     ops = [('load', 'overwrite', prog)]
-    for name, ar in [('t1', 2), ('t2', 3), ('t3', 1), ('t4', 2), ('t5', 2), ('t6', 2), ('t7', 2), ('lk1', 2), ('lk2', 1), ('lk3', 2), ('lk4', 2)]:
+    for name, ar in [('t1', 2), ('t2', 3), ('t3', 1), ('t4', 2), ('t5', 2), ('t6', 2), ('t7', 2), ('lk1', 2), ('lk2', 1), ('lk3', 2), ('lk4', 2), ('t8', 2), ('t9', 2)]:
         ops.append(('query', name, ('all',), [[Sym('v'), j] for j in range(ar)]))
     rep.count('re-entered-constructs')
     if scen.three_way(rep, drv, ops, 'case %d re-entry' % i) == 'ok':
